@@ -972,6 +972,25 @@ func (p *addrPool) remove(addr string) bool {
 	return removed
 }
 
+// removeExpired removes addr only if it is still not accessed since expire;
+// addr may be accessed after it was gathered.
+func (p *addrPool) removeExpired(addr string, expire time.Time) bool {
+	removed, _ := p.l.Remove(addr, func(util.LockedMap[string, *RateLimiter], bool) error {
+		if accessed, found := p.lastAccessedAt.Value(addr); found && !accessed.Before(expire) {
+			return util.ErrLockedSetIgnore
+		}
+
+		_ = p.lastAccessedAt.RemoveValue(addr)
+
+		_ = p.addrs.RemoveValue(addr)
+		_ = p.addrsQueue.Remove(addr)
+
+		return nil
+	})
+
+	return removed
+}
+
 func (p *addrPool) shrink(ctx context.Context, expire time.Time, maxAddrs uint64) (removed uint64) {
 	p.lastAccessedAt.TraverseMap(
 		func(m util.LockedMap[string, time.Time]) bool {
@@ -987,7 +1006,7 @@ func (p *addrPool) shrink(ctx context.Context, expire time.Time, maxAddrs uint64
 				})
 
 				for i := range gathered {
-					_ = p.remove(gathered[i])
+					_ = p.removeExpired(gathered[i], expire)
 				}
 
 				removed += uint64(len(gathered))
